@@ -165,6 +165,8 @@ func Load(dir string, env []string, tags string) (*Prog, error) {
 			if o := fn.Origin(); o.Pkg != nil && p.SPkgs[o.Pkg.Pkg.Path()] == o.Pkg {
 				p.Funcs = append(p.Funcs, fn)
 			}
+		} else if p.methodValueWrapper(fn) {
+			p.Funcs = append(p.Funcs, fn)
 		}
 	}
 	sort.Slice(p.Funcs, func(i, j int) bool { return p.Funcs[i].String() < p.Funcs[j].String() })
@@ -182,9 +184,28 @@ func (p *Prog) InModule(fn *ssa.Function) bool {
 		if fn.Parent() != nil {
 			return p.InModule(fn.Parent())
 		}
-		return false
+		return p.methodValueWrapper(fn)
 	}
 	return p.SPkgs[fn.Pkg.Pkg.Path()] == fn.Pkg
+}
+
+// methodValueWrapper: the synthetic function go/ssa makes for a method
+// expression (T.f, a "thunk") or a bound method value (x.f) of a method of
+// the module. Their bodies only forward to the method; they are analysed
+// like any other module function.
+func (p *Prog) methodValueWrapper(fn *ssa.Function) bool {
+	if fn == nil || len(fn.Blocks) == 0 {
+		return false
+	}
+	if !strings.HasPrefix(fn.Synthetic, "thunk for ") && !strings.HasPrefix(fn.Synthetic, "bound method wrapper for ") {
+		return false
+	}
+	o := fn.Object()
+	if o == nil || o.Pkg() == nil {
+		return false
+	}
+	sp := p.SPkgs[o.Pkg().Path()]
+	return sp != nil && sp.Pkg == o.Pkg()
 }
 
 // Func resolves a package-level function or method by package path and name
